@@ -16,7 +16,7 @@ THEOREMS = ["C05_pack_unpack", "C05_unpack_pack", "C05_destructurings_inverse", 
             "C05_sync_runs_at_call", "C05_async_deferred", "C05_once_per_await", "C05_known_is", "C05_known_refuted",
             "C05_nonvacuous"]
 
-RULE = ("traits generated from the grammar receiver{&self,&mut self,self,Rc,Arc,Box,Pin<&mut Self>} x arity 0..5 (thorough 0..7) x "
+RULE = ("traits generated from the grammar receiver{&self,&mut self,self,Rc,Arc,Box,Pin<&mut Self>,self: &Self,self: &mut Self} x arity 0..5 (thorough 0..7) x "
         "parameter classes{u32,Tok,String,&u32,&Tok,&str,&[u32],&mut u32,&mut Tok,&mut Lt<'_>(Impossible),T,G,impl Trait} x "
         "return{(),u32,Tok,String,T,Option} x flavour{sync,async fn,-> impl Future,#[async_trait]} x trait-level generic x "
         "api{module,flattened} x responder{answers,answers_arc,returns,applies_unmocked} x unmock_with entry{absent, _, path, path(exprs) with `self` first/"
@@ -29,8 +29,8 @@ RULE = ("traits generated from the grammar receiver{&self,&mut self,self,Rc,Arc,
 
 PRELUDE = "From Unimock Require Import Macro.ShapeRun.\nOpen Scope N_scope.\n"
 
-RECVS = ["ref", "mut", "owned", "rc", "arc", "box", "pin"]
-COQ_RECV = {"ref": "RcvRef", "mut": "RcvMut", "owned": "RcvOwned", "rc": "RcvRc", "arc": "RcvArc", "box": "RcvBox", "pin": "RcvPin"}
+RECVS = ["ref", "mut", "owned", "rc", "arc", "box", "pin", "tref", "tmut"]      # tref / tmut: the typed spellings `self: &Self` / `self: &mut Self`
+COQ_RECV = {"ref": "RcvRef", "mut": "RcvMut", "owned": "RcvOwned", "rc": "RcvRc", "arc": "RcvArc", "box": "RcvBox", "pin": "RcvPin", "tref": "RcvTypedRef", "tmut": "RcvTypedMut"}
 CLASSES = ["u32", "tok", "string", "ref", "reftok", "str", "slice", "mut", "muttok", "mutlt", "mutnamed", "T", "G", "impl"]
 COQ_CLASS = {"u32": "POwned", "tok": "POwnedTok", "string": "PString", "ref": "PRef", "reftok": "PRefTok", "str": "PStr",
              "slice": "PSlice", "mut": "PMut", "muttok": "PMutTok", "mutlt": "PMutLt",
@@ -91,7 +91,7 @@ def normalize(trait):
             vals = [x for x in um["exprs"] if x != "self"]
             if sorted(vals) != sorted(set(vals)) or any(not (0 <= x < n) for x in vals) or um["exprs"].count("self") > 1:
                 um["exprs"] = ["self"] + list(range(n - 1, -1, -1))
-        if m["resp"] == "unmock" and um is None:
+        if m["resp"] == "unmock" and um is None and not (m.get("missing_fn") and m["recv"] != "owned"):
             m["resp"] = "answers_arc"
         if m["resp"] == "returns" and m["ret"] != "u32":
             m["resp"] = "answers_arc"
@@ -126,6 +126,8 @@ def gen_method(rng, trait, max_arity):
     m["um"] = gen_um(rng, len(m["params"]))
     if m["um"] is not None and rng.random() < 0.7:
         m["resp"] = "unmock"
+    elif m["um"] is None and rng.random() < 0.08:
+        m["resp"], m["missing_fn"] = "unmock", True     # applies_unmocked() with no registered function: panics naming the method
     return m
 
 
@@ -240,7 +242,8 @@ def rust_real_fn(ti, j, trait):
     um = m["um"]
     fid = [i for i in range(len(trait["layout"])) if item_method(trait, i) == j][0]
     exprs = um["exprs"] if um["form"] == "call" else ["self"] + list(range(len(m["params"])))
-    selfty = {"ref": "&Unimock", "owned": "Unimock", "rc": "Rc<Unimock>", "arc": "Arc<Unimock>", "box": "Box<Unimock>"}[m["recv"]]
+    selfty = {"ref": "&Unimock", "owned": "Unimock", "rc": "Rc<Unimock>", "arc": "Arc<Unimock>", "box": "Box<Unimock>",
+              "tref": "&Unimock", "tmut": "&mut Unimock"}[m["recv"]]
     def pty(p):
         return {"mutnamed": "&mut u32"}.get(p["c"], rust_param_ty(p))
     args = ", ".join(f"u: {selfty}" if x == "self" else f"{'mut ' if m['params'][x]['c'] in MUT else ''}p{x}: {pty(m['params'][x])}" for x in exprs)
@@ -326,7 +329,7 @@ def rust_trait(ti, trait):
         j = item_method(trait, i)
         m = trait["methods"][j]
         recv = {"ref": "&self", "mut": "&mut self", "owned": "self", "rc": "self: Rc<Self>", "arc": "self: Arc<Self>",
-                "box": "self: Box<Self>", "pin": "self: Pin<&mut Self>"}[m["recv"]]
+                "box": "self: Box<Self>", "pin": "self: Pin<&mut Self>", "tref": "self: &Self", "tmut": "self: &mut Self"}[m["recv"]]
         ps = "".join(f", p{k}: {rust_param_ty(p)}" for k, p in enumerate(m["params"]))
         gparams = (["'a"] if any(p["c"] == "mutnamed" for p in m["params"]) else []) + ([f"T: {BOUND}"] if m["T"] else [])
         gen = "<" + ", ".join(gparams) + ">" if gparams else ""
@@ -367,7 +370,9 @@ def rust_driver(ti, mi, trait):
         resp = f".answers(&{closure})"
     else:
         resp = f".answers_arc(Arc::new({closure}))"
-    L = [f"fn case_{ti}_{mi}() {{", f"    let mut u = Unimock::new({entry}.{m['opener']}_call({matcher}){resp});"]
+    # (a call that panics with a mock error makes the final verification fail as well: not part of this observation)
+    nv = ".no_verify_in_drop()" if m["resp"] == "unmock" and m.get("um") is None else ""
+    L = [f"fn case_{ti}_{mi}() {{", f"    let mut u = Unimock::new({entry}.{m['opener']}_call({matcher}){resp}){nv};"]
     recv = m["recv"]
     if recv in ("rc", "arc"):
         L.append(f"    let u = {'Rc' if recv == 'rc' else 'Arc'}::new(u);")
@@ -380,8 +385,8 @@ def rust_driver(ti, mi, trait):
             l, a = rust_arg(trait, m, k, p, ids[k])
             lets.append(l); args.append(a)
         L += ["        " + l for l in lets]
-        if recv == "ref": rx, ex = "&u", "expect(&u as *const Unimock as usize);"
-        elif recv == "mut": rx, ex = "&mut u", "expect(&u as *const Unimock as usize);"
+        if recv in ("ref", "tref"): rx, ex = "&u", "expect(&u as *const Unimock as usize);"
+        elif recv in ("mut", "tmut"): rx, ex = "&mut u", "expect(&u as *const Unimock as usize);"
         elif recv == "pin": rx, ex = "Pin::new(&mut u)", "expect(&u as *const Unimock as usize);"
         elif recv == "owned": rx, ex = "u.clone()", "expect(0);"
         elif recv == "rc": rx, ex = "u.clone()", "expect(Rc::as_ptr(&u) as usize);"
@@ -392,7 +397,18 @@ def rust_driver(ti, mi, trait):
         ws = "".join(f" {{}}" for p in m["params"] if p["c"] in MUT)
         wargs = "".join(f", a{k}.show()" for k, p in enumerate(m["params"]) if p["c"] in MUT)
         wline = f"push(format!(\"W{ws}\"{wargs}));"
-        if m["flav"] == "sync":
+        missing = m["resp"] == "unmock" and m.get("um") is None
+        named = f"named_panic(\"{tn}::t{ti}_m{mi}\", "
+        if missing and m["flav"] == "sync":
+            L += [f"        {named}std::panic::catch_unwind(std::panic::AssertUnwindSafe(|| {{ let _ = {call_expr}; }})));", "        " + wline]
+        elif missing:
+            L += [f"        let f = {call_expr};", "        sample(\"constructed\");"]
+            if use == "Awaited":
+                L += [f"        let pr = std::panic::catch_unwind(std::panic::AssertUnwindSafe(|| {{ let _ = block_on(f); }}));",
+                      "        sample(\"awaited\");", f"        {named}pr);", "        " + wline]
+            else:
+                L += ["        drop(f);", "        sample(\"dropped\");"]
+        elif m["flav"] == "sync":
             L += [f"        let r = {call_expr};", "        push(format!(\"R {}\", r.show()));", "        " + wline]
         else:
             L += [f"        let f = {call_expr};", "        sample(\"constructed\");"]
@@ -442,7 +458,24 @@ class BuildBroken(Exception):
         self.idx, self.log = traits_idx, log
 
 
+def prepare_crate(name):
+    """a private copy of harness/shapes for another property's shape part"""
+    import shutil
+    src_dir = os.path.join(C.VERIF, "harness", "shapes")
+    dst = os.path.join(C.VERIF, "harness", name)
+    os.makedirs(os.path.join(dst, "src"), exist_ok=True)
+    for rel in ("Cargo.toml.in", os.path.join("src", "main.rs"), os.path.join("src", "support.rs")):
+        text = open(os.path.join(src_dir, rel)).read()
+        if rel == "Cargo.toml.in":
+            text = text.replace('name = "vshapes"', f'name = "v{name}"')
+        b = os.path.join(dst, rel)
+        if not os.path.exists(b) or open(b).read() != text:
+            open(b, "w").write(text)
+
+
 def both(traits, harness="shapes"):
+    if harness not in ("shapes", "shapes_probe"):
+        prepare_crate(harness)
     src, cases, ranges = render(traits)
     path = os.path.join(C.VERIF, "harness", harness, "src", "gen.rs")
     if not os.path.exists(path) or open(path).read() != src:
